@@ -2,6 +2,7 @@
 From Coq Require Import QArith.
 From Coq Require Import List NArith ZArith Bool.
 From Okv Require Import Model.Lit Model.LitSpec Proofs.LitProofs Proofs.LitShow Proofs.LitExamples.
+From Okv Require Import Model.Syntax Model.Display Proofs.LitPrinted.
 Import ListNotations.
 Open Scope N_scope.
 
@@ -44,3 +45,19 @@ Print Assumptions C07_show_scan.
 Theorem C07_scanned_wf : forall l d, scan l = SOk d -> wf_pdec d.
 Proof. exact scan_wf. Qed.
 Print Assumptions C07_scanned_wf.
+
+(* "...preserved when printed", in every position where display.rs writes back a number the
+   parser read: for every list of entries `okane format` prints (Model/Display.v
+   format_entries, any width oracle) and every literal `d` of an entry - posting amount, operand
+   of a value expression, lot price, cost, balance assertion or assignment, `format` line of a
+   commodity directive (entry_lits, Proofs/LitPrinted.v) - the output contains `show d`, which
+   scans back to the same number, places and sign, and to the same grouping style when the
+   integer part has four or more digits *)
+Theorem C07_printed_in_every_position : forall w es e d,
+  In e es -> In d (entry_lits e) -> wf_pdec d ->
+  exists pre post d',
+    format_entries w es = pre ++ show d ++ post /\
+    scan (show d) = SOk d' /\ mant d' = mant d /\ scale d' = scale d /\ neg d' = neg d /\
+    (big d = true -> pfmt d' = pfmt d).
+Proof. exact format_shows_every_literal. Qed.
+Print Assumptions C07_printed_in_every_position.
